@@ -17,6 +17,8 @@ use std::sync::Arc;
 use vharness::*;
 
 const KG: &str = "k";
+/// knowledge graphs: model id 0 = "k" (every session starts there), 1 = "k2"
+const KGS: &[&str] = &["k", "k2"];
 /// (model id, text, arity)
 const NAMES: &[(u32, &str, usize)] = &[(0, "e", 2), (1, "f", 2), (3, "u", 1), (7, "t", 2), (10, "v", 2), (11, "w", 2), (12, "x", 2), (13, "s", 1)];
 fn name_of(id: u32) -> (&'static str, usize) {
@@ -47,16 +49,20 @@ struct Cl {
 /// `by`: the session (index) that issues a persistent operation, or None for a session-less request
 #[derive(Clone, Debug)]
 enum Op {
+    // persistent operations: issued by session `by` (they go to the KG the session is bound to) or,
+    // with `by: None`, by a session-less request against KG 0
     PInsert { by: Option<usize>, rel: u32, ts: Vec<Vec<i64>> },
     PDelete { by: Option<usize>, rel: u32, t: Vec<i64> },
     PRegister { by: Option<usize>, cl: Cl },
     PDrop { by: Option<usize>, name: u32 },
-    PQuery { rel: u32 },
+    PQuery { kg: usize, rel: u32 },
     SFact { s: usize, rel: u32, t: Vec<i64> },
     SRetract { s: usize, rel: u32, t: Vec<i64> },
     SRule { s: usize, cl: Cl },
     SClear { s: usize },
     SDropRules { s: usize, name: u32 },
+    SDropIdx { s: usize, i: usize },
+    SKgUse { s: usize, kg: usize },
     SQuery { s: usize, rel: u32 },
     SCount { s: usize, rel: u32 },
     SSchema { s: usize, rel: u32 },
@@ -68,6 +74,7 @@ impl Op {
             Op::PInsert { by, .. } | Op::PDelete { by, .. } | Op::PRegister { by, .. } | Op::PDrop { by, .. } => by.map_or(0, |b| b + 1),
             Op::PQuery { .. } => 0,
             Op::SFact { s, .. } | Op::SRetract { s, .. } | Op::SRule { s, .. } | Op::SClear { s } | Op::SDropRules { s, .. }
+            | Op::SDropIdx { s, .. } | Op::SKgUse { s, .. }
             | Op::SQuery { s, .. } | Op::SCount { s, .. } | Op::SSchema { s, .. } => s + 1,
         }
     }
@@ -102,12 +109,14 @@ fn op_text(o: &Op) -> String {
         Op::PDelete { by: b, rel, t } => format!("[{}] -{}{}", by(b), name_of(*rel).0, tup_text(t)),
         Op::PRegister { by: b, cl } => format!("[{}] +{}", by(b), clause_text(cl)),
         Op::PDrop { by: b, name } => format!("[{}] -{}", by(b), name_of(*name).0),
-        Op::PQuery { rel } => format!("[no session] ?{}({})", name_of(*rel).0, vars(name_of(*rel).1)),
+        Op::PQuery { kg, rel } => format!("[no session, kg {}] ?{}({})", KGS[*kg], name_of(*rel).0, vars(name_of(*rel).1)),
         Op::SFact { s, rel, t } => format!("[session {}] {}{}", s + 1, name_of(*rel).0, tup_text(t)),
         Op::SRetract { s, rel, t } => format!("[session {}] session_retract_ephemeral {}{}", s + 1, name_of(*rel).0, tup_text(t)),
         Op::SRule { s, cl } => format!("[session {}] {}", s + 1, clause_text(cl)),
         Op::SClear { s } => format!("[session {}] .session clear", s + 1),
         Op::SDropRules { s, name } => format!("[session {}] .session drop {}", s + 1, name_of(*name).0),
+        Op::SDropIdx { s, i } => format!("[session {}] .session drop {}", s + 1, i + 1),
+        Op::SKgUse { s, kg } => format!("[session {}] .kg use {}", s + 1, KGS[*kg]),
         Op::SQuery { s, rel } => format!("[session {}] ?{}({})", s + 1, name_of(*rel).0, vars(name_of(*rel).1)),
         Op::SCount { s, rel } => format!("[session {}] count of {}", s + 1, name_of(*rel).0),
         Op::SSchema { s, rel } => format!("[session {}] {}(id: int, name: string)", s + 1, name_of(*rel).0),
@@ -134,19 +143,24 @@ fn clause_coq(c: &Cl) -> String {
     let body: Vec<String> = c.body.iter().map(|(n, a)| format!("({} {})", if *n { "LNeg" } else { "LPos" }, atom_coq(a))).collect();
     format!("(mkClause {} {})", atom_coq(&c.head), coq_list(&body))
 }
-fn op_coq(o: &Op, acc: bool) -> String {
+/// `kg`: the knowledge graph a persistent operation went to (the issuing session's binding as
+/// tracked by the harness, or 0 for session-less requests)
+fn op_coq(o: &Op, acc: bool, kg: usize) -> String {
     let sid = |s: &usize| coq_n(*s as u128 + 1);
+    let kgc = coq_n(kg as u128);
     match o {
-        Op::PInsert { rel, ts, .. } => format!("(PInsert {} {})", coq_n(*rel as u128), coq_list(&ts.iter().map(|t| tup_coq(t)).collect::<Vec<_>>())),
-        Op::PDelete { rel, t, .. } => format!("(PDelete {} [{}])", coq_n(*rel as u128), tup_coq(t)),
-        Op::PRegister { cl, .. } => format!("(PRegister {} {} {})", coq_n(cl.head.rel as u128), clause_coq(cl), coq_bool(acc)),
-        Op::PDrop { name, .. } => format!("(PDrop {})", coq_n(*name as u128)),
-        Op::PQuery { rel } => format!("(PQuery {})", coq_n(*rel as u128)),
+        Op::PInsert { rel, ts, .. } => format!("(PInsert {} {} {})", kgc, coq_n(*rel as u128), coq_list(&ts.iter().map(|t| tup_coq(t)).collect::<Vec<_>>())),
+        Op::PDelete { rel, t, .. } => format!("(PDelete {} {} [{}])", kgc, coq_n(*rel as u128), tup_coq(t)),
+        Op::PRegister { cl, .. } => format!("(PRegister {} {} {} {})", kgc, coq_n(cl.head.rel as u128), clause_coq(cl), coq_bool(acc)),
+        Op::PDrop { name, .. } => format!("(PDrop {} {})", kgc, coq_n(*name as u128)),
+        Op::PQuery { kg, rel } => format!("(PQuery {} {})", coq_n(*kg as u128), coq_n(*rel as u128)),
         Op::SFact { s, rel, t } => format!("(SFact {} {} {})", sid(s), coq_n(*rel as u128), tup_coq(t)),
         Op::SRetract { s, rel, t } => format!("(SRetract {} {} [{}])", sid(s), coq_n(*rel as u128), tup_coq(t)),
         Op::SRule { s, cl } => format!("(SRule {} {} {})", sid(s), clause_coq(cl), coq_bool(acc)),
         Op::SClear { s } => format!("(SClear {})", sid(s)),
         Op::SDropRules { s, name } => format!("(SDropRules {} {})", sid(s), coq_n(*name as u128)),
+        Op::SDropIdx { s, i } => format!("(SDropIdx {} {})", sid(s), coq_nat(*i)),
+        Op::SKgUse { s, kg } => format!("(SKgUse {} {})", sid(s), coq_n(*kg as u128)),
         Op::SQuery { s, rel } => format!("(SQuery {} {})", sid(s), coq_n(*rel as u128)),
         Op::SCount { s, rel } => format!("(SCount {} {})", sid(s), coq_n(*rel as u128)),
         Op::SSchema { s, rel } => format!("(SSchema {} {} [CInt; CStr])", sid(s), coq_n(*rel as u128)),
@@ -218,7 +232,9 @@ fn mk_world(nsessions: usize) -> World {
     config.storage.data_dir = tmp.path().to_path_buf();
     config.storage.auto_create_knowledge_graphs = true;
     let handler = Handler::from_config(config).expect("handler");
-    handler.get_storage().ensure_knowledge_graph(KG).expect("kg");
+    for k in KGS {
+        handler.get_storage().ensure_knowledge_graph(k).expect("kg");
+    }
     let sids = (0..nsessions).map(|_| handler.create_session(KG).expect("session")).collect();
     World { handler, sids, _tmp: tmp }
 }
@@ -254,9 +270,9 @@ async fn exec(w: &World, o: &Op) -> (Obs, bool) {
             let r = run(*by, format!("-{}", name_of(*name).0)).await;
             (Obs::None, r.is_ok())
         }
-        Op::PQuery { rel } => {
+        Op::PQuery { kg, rel } => {
             let (n, ar) = name_of(*rel);
-            match run(None, format!("?{}({})", n, vars(ar))).await {
+            match h.execute_program(None, Some(KGS[*kg].to_string()), format!("?{}({})", n, vars(ar)), None).await {
                 Ok(q) => (rows_of(&q), true),
                 Err(e) => (Obs::Err(e), false),
             }
@@ -282,6 +298,14 @@ async fn exec(w: &World, o: &Op) -> (Obs, bool) {
             let r = run(Some(*s), format!(".session drop {}", name_of(*name).0)).await;
             (Obs::None, r.is_ok())
         }
+        Op::SDropIdx { s, i } => {
+            let r = run(Some(*s), format!(".session drop {}", i + 1)).await;
+            (Obs::None, r.is_ok())
+        }
+        Op::SKgUse { s, kg } => {
+            let r = run(Some(*s), format!(".kg use {}", KGS[*kg])).await;
+            (Obs::None, r.is_ok())
+        }
         Op::SQuery { s, rel } => {
             let (n, ar) = name_of(*rel);
             match run(Some(*s), format!("?{}({})", n, vars(ar))).await {
@@ -297,7 +321,8 @@ async fn exec(w: &World, o: &Op) -> (Obs, bool) {
             let rule = format!("c10cnt(count<V0>) <- {}({})", n, vars(ar));
             let clean = h.session_manager().is_session_clean(&w.sids[*s]).unwrap_or(true);
             let r = if clean {
-                h.query_program(Some(KG.to_string()), format!("{rule}\n?c10cnt(N)")).await
+                let kg = h.session_manager().session_kg(&w.sids[*s]).unwrap_or_else(|_| KG.to_string());
+                h.query_program(Some(kg), format!("{rule}\n?c10cnt(N)")).await
             } else {
                 h.query_program_with_session(&w.sids[*s], rule).await
             };
@@ -321,7 +346,21 @@ struct Outcome {
     tallies: Vec<String>,
 }
 fn finish_case(kind: &'static str, extra_tags: &[&'static str], steps: &[(Op, Obs, bool)], note: serde_json::Value) -> Outcome {
-    let coq_steps: Vec<String> = steps.iter().map(|(o, ob, acc)| format!("({}, {})", op_coq(o, *acc), obs_coq(ob))).collect();
+    // the KG every session is bound to, as the harness tracks it (a successful `.kg use` moves it)
+    let mut cur: std::collections::BTreeMap<usize, usize> = Default::default();
+    let mut coq_steps: Vec<String> = vec![];
+    for (o, ob, acc) in steps {
+        let kg = match o {
+            Op::PInsert { by: Some(s), .. } | Op::PDelete { by: Some(s), .. } | Op::PRegister { by: Some(s), .. } | Op::PDrop { by: Some(s), .. } => *cur.get(s).unwrap_or(&0),
+            _ => 0,
+        };
+        coq_steps.push(format!("({}, {})", op_coq(o, *acc, kg), obs_coq(ob)));
+        if let Op::SKgUse { s, kg } = o {
+            if *acc {
+                cur.insert(*s, *kg);
+            }
+        }
+    }
     let desc_steps: Vec<serde_json::Value> =
         steps.iter().map(|(o, ob, acc)| serde_json::json!({"call": op_text(o), "accepted": acc, "answer": obs_json(ob)})).collect();
     let mut tallies = vec![format!("kind:{kind}"), format!("len:{}", steps.len() / 4 * 4)];
@@ -339,6 +378,8 @@ fn finish_case(kind: &'static str, extra_tags: &[&'static str], steps: &[(Op, Ob
                 Op::SRule { .. } => "session-rule",
                 Op::SClear { .. } => "session-clear",
                 Op::SDropRules { .. } => "session-drop-rules",
+                Op::SDropIdx { .. } => "session-drop-index",
+                Op::SKgUse { .. } => "session-kg-use",
                 Op::SQuery { .. } => "session-query",
                 Op::SCount { .. } => "session-count",
                 Op::SSchema { .. } => "session-schema",
@@ -412,8 +453,10 @@ fn final_observations(nsessions: usize, rels: &[u32]) -> Vec<Op> {
         for s in 0..nsessions {
             ops.push(Op::SQuery { s, rel: *r });
         }
-        ops.push(Op::PQuery { rel: *r });
+        ops.push(Op::PQuery { kg: 0, rel: *r });
     }
+    ops.push(Op::PQuery { kg: 1, rel: 0 });
+    ops.push(Op::PQuery { kg: 1, rel: 10 });
     for s in 0..nsessions {
         ops.push(Op::SCount { s, rel: 0 });
     }
@@ -426,16 +469,31 @@ fn corpus() -> Vec<(&'static str, &'static [&'static str], usize, Vec<Op>)> {
         // the known finding: session 1's transient schema makes session 2's and the session-less insert fail
         ("corpus-session-schema", &["known-session-schema"], 2, vec![
             SSchema { s: 0, rel: 7 }, PInsert { by: Some(1), rel: 7, ts: vec![vec![1, 2]] }, PInsert { by: None, rel: 7, ts: vec![vec![3, 4]] },
-            SQuery { s: 1, rel: 7 }, PQuery { rel: 7 }, SQuery { s: 0, rel: 7 }]),
+            SQuery { s: 1, rel: 7 }, PQuery { kg: 0, rel: 7 }, SQuery { s: 0, rel: 7 }]),
         // the repaired defect: a session fact equal to a stored fact must count once
         ("corpus-duplicate-fact-count", &[], 2, vec![
             PInsert { by: None, rel: 0, ts: vec![vec![1, 2], vec![2, 3]] }, SFact { s: 0, rel: 0, t: vec![1, 2] }, SFact { s: 0, rel: 0, t: vec![5, 6] },
-            SFact { s: 0, rel: 0, t: vec![5, 6] }, SCount { s: 0, rel: 0 }, SCount { s: 1, rel: 0 }, SQuery { s: 0, rel: 0 }, SQuery { s: 1, rel: 0 }, PQuery { rel: 0 }]),
+            SFact { s: 0, rel: 0, t: vec![5, 6] }, SCount { s: 0, rel: 0 }, SCount { s: 1, rel: 0 }, SQuery { s: 0, rel: 0 }, SQuery { s: 1, rel: 0 }, PQuery { kg: 0, rel: 0 }]),
+        // a cleared rule must not come back: rule, `.session clear`, dirty again (a clean session takes
+        // the fast path), query; same with `.session drop 1` and `.session drop w`
+        ("corpus-clear-then-dirty", &[], 2, vec![
+            PInsert { by: None, rel: 0, ts: vec![vec![1, 2]] }, SRule { s: 0, cl: copy(11, 0) }, SFact { s: 0, rel: 0, t: vec![3, 4] }, SQuery { s: 0, rel: 11 },
+            SClear { s: 0 }, SQuery { s: 0, rel: 11 }, SFact { s: 0, rel: 0, t: vec![5, 6] }, SQuery { s: 0, rel: 11 }, SQuery { s: 0, rel: 0 }, SCount { s: 0, rel: 0 },
+            SRule { s: 0, cl: swap(11, 0) }, SQuery { s: 0, rel: 11 }, SDropIdx { s: 0, i: 0 }, SQuery { s: 0, rel: 11 },
+            SRule { s: 0, cl: copy(11, 0) }, SRule { s: 0, cl: copy(12, 0) }, SDropRules { s: 0, name: 11 }, SQuery { s: 0, rel: 11 }, SQuery { s: 0, rel: 12 },
+            SDropIdx { s: 0, i: 5 }, SQuery { s: 1, rel: 11 }, SQuery { s: 1, rel: 12 }]),
+        // the KG switch clears the session: rule + fact in k, `.kg use k2`, dirty again, query in k2
+        ("corpus-kg-switch", &[], 2, vec![
+            PInsert { by: None, rel: 0, ts: vec![vec![1, 2]] }, SKgUse { s: 1, kg: 1 }, PInsert { by: Some(1), rel: 0, ts: vec![vec![8, 9]] }, PRegister { by: Some(1), cl: copy(10, 0) },
+            SRule { s: 0, cl: copy(11, 0) }, SFact { s: 0, rel: 0, t: vec![3, 4] }, SQuery { s: 0, rel: 11 }, SKgUse { s: 0, kg: 1 }, SQuery { s: 0, rel: 11 },
+            SFact { s: 0, rel: 0, t: vec![6, 6] }, SQuery { s: 0, rel: 11 }, SQuery { s: 0, rel: 0 }, SQuery { s: 0, rel: 10 }, SCount { s: 0, rel: 0 },
+            SQuery { s: 1, rel: 0 }, PQuery { kg: 0, rel: 0 }, PQuery { kg: 1, rel: 0 }, PQuery { kg: 0, rel: 10 }, SKgUse { s: 0, kg: 0 }, SFact { s: 0, rel: 0, t: vec![7, 7] },
+            SQuery { s: 0, rel: 0 }, SQuery { s: 0, rel: 11 }, PInsert { by: Some(0), rel: 0, ts: vec![vec![2, 2]] }, PQuery { kg: 0, rel: 0 }, PQuery { kg: 1, rel: 0 }]),
         // two sessions, different ephemeral facts under one persistent rule, session rule over the persistent rule
         ("corpus-two-clients", &[], 2, vec![
             PInsert { by: None, rel: 0, ts: vec![vec![10, 20]] }, PRegister { by: None, cl: copy(10, 0) }, SFact { s: 0, rel: 0, t: vec![1, 2] },
             SFact { s: 1, rel: 0, t: vec![3, 4] }, SRule { s: 1, cl: swap(11, 10) }, SQuery { s: 0, rel: 10 }, SQuery { s: 1, rel: 10 },
-            SQuery { s: 0, rel: 11 }, SQuery { s: 1, rel: 11 }, PQuery { rel: 10 }, PQuery { rel: 11 }, PInsert { by: Some(0), rel: 0, ts: vec![vec![7, 8]] },
+            SQuery { s: 0, rel: 11 }, SQuery { s: 1, rel: 11 }, PQuery { kg: 0, rel: 10 }, PQuery { kg: 0, rel: 11 }, PInsert { by: Some(0), rel: 0, ts: vec![vec![7, 8]] },
             SQuery { s: 1, rel: 11 }, SRetract { s: 1, rel: 0, t: vec![3, 4] }, SQuery { s: 1, rel: 11 }, SClear { s: 1 }, SQuery { s: 1, rel: 11 }, SQuery { s: 0, rel: 10 }]),
         // session rule with the head of a persistent rule (union), negation over session facts, recursion in a session
         ("corpus-session-rules", &[], 3, vec![
@@ -500,9 +558,17 @@ fn gen_session_list(r: &mut Rng, s: usize, len: usize, with_persistent: bool) ->
                 Op::SRule { s, cl: Cl { head: A { rel: 11, args: vec![v(0), v(1)] }, body: vec![(false, A { rel: 0, args: vec![v(0), v(1)] }), (true, A { rel: 11, args: vec![v(0), v(1)] })] } }
             }
         } else if roll < 52 {
+            have_rule = false;
             Op::SClear { s }
         } else if roll < 56 {
+            have_rule = false;
             Op::SDropRules { s, name: *r.pick(&[10u32, 11]) }
+        } else if roll < 58 {
+            have_rule = false;
+            Op::SDropIdx { s, i: r.below(2) as usize }
+        } else if roll < 61 {
+            have_rule = false;
+            Op::SKgUse { s, kg: r.below(2) as usize }
         } else if roll < 64 {
             Op::SCount { s, rel: 0 }
         } else if roll < 72 && with_persistent {
@@ -527,7 +593,7 @@ fn gen_writer_list(r: &mut Rng, len: usize) -> Vec<Op> {
             6 => Op::PRegister { by: None, cl: copy(10, 0) },
             7 => Op::PDrop { by: None, name: 10 },
             8 => Op::PInsert { by: None, rel: 1, ts: vec![small_tuple(r)] },
-            _ => Op::PQuery { rel: *r.pick(&[0u32, 10]) },
+            _ => Op::PQuery { kg: 0, rel: *r.pick(&[0u32, 10]) },
         })
         .collect()
 }
@@ -593,7 +659,7 @@ impl Mini {
                 self.w_rule[*s] = false;
                 None
             }
-            Op::PQuery { rel } => Some(match rel {
+            Op::PQuery { rel, .. } => Some(match rel {
                 0 => rows(self.seen(None)),
                 10 if self.v_rule => rows(self.seen(None)),
                 _ => vec![],
@@ -773,6 +839,43 @@ fn main() {
             sched.extend(il);
             sched.extend(final_observations(ns, &[0, 10, 11]));
             plan.push(Plan::Seq("exhaustive", &[], ns, sched, serde_json::json!({"block": block, "interleaving": k, "of": total})));
+        }
+        // a reset block: session 1 defines a rule, resets (clear / drop / KG switch), becomes dirty
+        // again and queries the rule's head; all 15 interleavings with two calls of session 2
+        if plan.len() < n {
+            let rule = match rng.below(3) {
+                0 => copy(11, 0),
+                1 => swap(11, 0),
+                _ => copy(11, 10),
+            };
+            let reset = match rng.below(5) {
+                0 | 1 => Op::SClear { s: 0 },
+                2 => Op::SKgUse { s: 0, kg: 1 },
+                3 => Op::SDropIdx { s: 0, i: 0 },
+                _ => Op::SDropRules { s: 0, name: 11 },
+            };
+            let lists = vec![
+                vec![Op::SRule { s: 0, cl: rule }, reset, Op::SFact { s: 0, rel: 0, t: small_tuple(&mut rng) }, Op::SQuery { s: 0, rel: 11 }],
+                gen_session_list(&mut rng, 1, 2, true),
+            ];
+            let prefix = vec![
+                Op::PInsert { by: None, rel: 0, ts: vec![vec![1, 2]] },
+                Op::PRegister { by: None, cl: copy(10, 0) },
+                Op::SKgUse { s: 1, kg: 1 },
+                Op::PInsert { by: Some(1), rel: 0, ts: vec![vec![8, 9]] },
+                Op::SKgUse { s: 1, kg: 0 },
+            ];
+            let all = interleavings(&lists);
+            let total = all.len();
+            for (k, il) in all.into_iter().enumerate() {
+                if plan.len() >= n {
+                    break;
+                }
+                let mut sched = prefix.clone();
+                sched.extend(il);
+                sched.extend(final_observations(2, &[0, 10, 11]));
+                plan.push(Plan::Seq("reset-block", &[], 2, sched, serde_json::json!({"block": block, "interleaving": k, "of": total})));
+            }
         }
         // longer random sequential schedule and a free-running stress case
         if plan.len() < n {
